@@ -25,6 +25,7 @@ import (
 
 var abort = flag.Bool("abort", false, "compile with AdditionalAbortChecks")
 var only = flag.Int("only", -1, "bias generated statements to one construct")
+var norepo = flag.Bool("norepo", false, "skip the repository sources (main.elk.test)")
 var repo = flag.String("repo", "/repo", "repository root (for the shipped Elk sources)")
 
 func main() {
@@ -97,6 +98,9 @@ func main() {
 	// 2. the repository's own Elk sources (main.elk.test pulls in every *.elk.test and std)
 	if o.Extra != "src" {
 		for _, p := range cfgx.RepoSources(*repo) {
+			if *norepo {
+				break
+			}
 			rel := strings.TrimPrefix(p, *repo+"/")
 			if strings.Contains(rel, "fixtures/") {
 				continue
